@@ -93,7 +93,7 @@ def _safe_pow(bv: complex, xv: complex, computed_exponent: bool) -> complex:
                 raise Hazard("zero to a negative power")
             return 1.0 + 0j if n == 0 else 0j
         if abs(n) > 64:
-            raise Hazard("huge power")
+            raise Ambiguous("huge power")
         return bv ** n
     if abs(bv) < 1e-9:
         raise Ambiguous("zero base, non-integer exponent")
@@ -106,10 +106,14 @@ def nev(e, env) -> complex:
     """Evaluate sympy tree e with symbol values env (name -> complex)."""
     try:
         r = _nev(e, env)
-    except (OverflowError, ZeroDivisionError) as ex:
+    except OverflowError as ex:
+        raise Ambiguous(str(ex))
+    except ZeroDivisionError as ex:
         raise Hazard(str(ex))
-    if not (math.isfinite(r.real) and math.isfinite(r.imag)) or abs(r) > 1e12:
+    if not (math.isfinite(r.real) and math.isfinite(r.imag)):
         raise Hazard("not finite")
+    if abs(r) > 1e12:
+        raise Ambiguous("huge value (precision)")
     return r
 
 
@@ -136,7 +140,7 @@ def _nev(e, env) -> complex:
     if isinstance(e, sympy.Pow):
         r = _safe_pow(_nev(e.args[0], env), _nev(e.args[1], env), bool(e.args[1].args))
         if abs(r) > 1e12:
-            raise Hazard("huge")
+            raise Ambiguous("huge intermediate (precision)")
         return r
     if not e.args:
         if e is sympy.zoo or e is sympy.nan or e is sympy.oo or e is -sympy.oo:
